@@ -18,16 +18,16 @@ func NumClasses(t *Type, f *Field) int {
 	case "fixed":
 		return 6
 	case "bin":
-		return 6
+		return 8
 	case "cstr":
 		return 4
 	case "list":
 		return 8
 	case "body":
 		if lf := t.Field(f.Len); lf != nil && lf.Kind == "u32" {
-			return 7
+			return 8
 		}
-		return 6
+		return 7
 	case "tlv":
 		return 7
 	}
@@ -121,6 +121,14 @@ func genBin(w int, r *fw.Rng, class int) []byte {
 		for i := range b {
 			b[i] = 0xff
 		}
+	case 6: // binary fields that happen to hold text: decimal digits (BCD-looking ids written as characters)
+		for i := range b {
+			b[i] = byte('0' + r.Intn(10))
+		}
+	case 7: // ... or hexadecimal digits
+		for i := range b {
+			b[i] = "0123456789abcdefABCDEF"[r.Intn(22)]
+		}
 	}
 	return b
 }
@@ -172,6 +180,8 @@ func genBody(wide bool, r *fw.Rng, class int) []byte {
 	case 5:
 		return make([]byte, r.Range(1, 200))
 	case 6:
+		return structuredBody(r)
+	case 7:
 		n = r.Pick(65535, 65536, 65537)
 	default:
 		n = r.Range(0, 255)
@@ -180,6 +190,34 @@ func genBody(wide bool, r *fw.Rng, class int) []byte {
 		}
 	}
 	return r.Bytes(n)
+}
+
+// structuredBody: message bodies as real traffic carries them — a user data header in front of the text
+// (concatenation 8-bit / 16-bit reference, other information elements, several elements), a delivery receipt,
+// plain text. Noise never begins with a well-formed header.
+func structuredBody(r *fw.Rng) []byte {
+	text := []byte("Hello, this is segment text 0123456789")[:r.Range(0, 38)]
+	total := byte(r.Range(1, 5))
+	seq := byte(r.Range(1, int(total)))
+	ref := byte(r.U32())
+	var h []byte
+	switch r.Intn(8) {
+	case 0, 1:
+		h = []byte{0x05, 0x00, 0x03, ref, total, seq}
+	case 2:
+		h = []byte{0x06, 0x08, 0x04, ref, byte(r.U32()), total, seq}
+	case 3: // concatenation + application port addressing
+		h = []byte{0x0b, 0x00, 0x03, ref, total, seq, 0x05, 0x04, 0x0b, 0x84, 0x23, 0xf0}
+	case 4: // another element only (national language shift)
+		h = []byte{0x03, 0x24, 0x01, byte(r.Intn(14))}
+	case 5: // sequence number outside 1..total, zero total: header-looking but not valid
+		h = []byte{0x05, 0x00, 0x03, ref, byte(r.Pick(0, 1, 2)), byte(r.Pick(0, 3, 255))}
+	case 6:
+		return []byte("id:0123456789 sub:001 dlvrd:001 submit date:2410011200 done date:2410011201 stat:DELIVRD err:000 text:Hello")
+	default:
+		return text
+	}
+	return append(h, text...)
 }
 
 // GenTLVs makes a set of optional parameters with distinct tags.
@@ -264,7 +302,7 @@ func Gen(t *Type, r *fw.Rng, force, class int) (*Values, []string) {
 			continue
 		}
 		k := r.Intn(NumClasses(t, f))
-		if f.Kind == "body" && k == 6 && !(force == i) {
+		if f.Kind == "body" && k == 7 && !(force == i) {
 			k = 4 // the 64 KiB bodies only when asked for
 		}
 		if f.Kind == "tlv" && k == 5 && !(force == i) {
@@ -293,6 +331,12 @@ func Gen(t *Type, r *fw.Rng, force, class int) (*Values, []string) {
 			v.F[f.Spec] = genFixed(f.W, r, k)
 		case "bin":
 			v.F[f.Spec] = genBin(f.W, r, k)
+			if f.Repr == "hex-after-decode" && r.Bool() { // these encoders take the raw ten octets as well as the 20 hex digits
+				if v.Raw == nil {
+					v.Raw = map[string]bool{}
+				}
+				v.Raw[f.Spec] = true
+			}
 		case "cstr":
 			switch k {
 			case 0:
